@@ -242,6 +242,13 @@ def rule_permexh(ctx):
         sir_pos = 1 if q.endswith("sources") else 2
 
         def is_sir_buffer(base):
+            # one (3, n, n) array filled by  B[:, i, j] = crit(...)  and read as B[sir position]
+            if base.op == "sub" and base.a[1].op == "const" and not isinstance(base.a[1].a[0], bool) and base.a[1].a[0] == sir_pos:
+                nm0 = _buffer_name(s, base.a[0])
+                if nm0 is not None:
+                    st0 = [m for m in s.by_kind("mutate") if m.how == "setitem" and m.root == nm0]
+                    if st0 and all(m.val.op == "call" and call_name(m.val) == crit and m.key.op == "tuple" and len(m.key.a) == 3 and m.key.a[0].op == "slice" and all(tm.is_const(z, None) for z in m.key.a[0].a) for m in st0):
+                        return True
             nm = _buffer_name(s, base)
             if nm is None:
                 return False
@@ -253,7 +260,7 @@ def rule_permexh(ctx):
                 return False
             base, idx = v.a[1][0].a
             idx_ok = idx.op == "tuple" and len(idx.a) == 2 and idx.a[0].op in ("iter", "sub") and idx.a[1].op == "call" and call_name(idx.a[1]) == "np.arange" and any(x.op == "call" and call_name(x) == "itertools.permutations" for x in tm.walk(idx.a[0]))
-            return idx_ok and base.op in ("loop", "loopvar", "upd") and is_sir_buffer(base)
+            return idx_ok and base.op in ("loop", "loopvar", "upd", "sub") and is_sir_buffer(base)
 
         good = False
         scores = None
